@@ -50,6 +50,18 @@ int reb_particle_diff(struct reb_particle p1, struct reb_particle p2){
     return differ;
 }
 
+// Compares two variational configurations. The pointer to the simulation is ignored.
+int reb_variational_configuration_diff(struct reb_variational_configuration c1, struct reb_variational_configuration c2){
+    int differ = 0;
+    differ = differ || (c1.order != c2.order);
+    differ = differ || (c1.index != c2.index);
+    differ = differ || (c1.testparticle != c2.testparticle);
+    differ = differ || (c1.index_1st_order_a != c2.index_1st_order_a);
+    differ = differ || (c1.index_1st_order_b != c2.index_1st_order_b);
+    differ = differ || (c1.lrescale != c2.lrescale);
+    return differ;
+}
+
 struct reb_binary_field_descriptor reb_binary_field_descriptor_for_type(int type){
     int i=-1;
     do{
@@ -222,6 +234,12 @@ int reb_binary_diff(char* buf1, size_t size1, char* buf2, size_t size2, char** b
                 struct reb_particle* pb2 = (struct reb_particle*)(buf2+pos2);
                 for (unsigned int i=0;i<field1.size/sizeof(struct reb_particle);i++){
                     fields_differ |= reb_particle_diff(pb1[i],pb2[i]);
+                }
+            }else if (strcmp(reb_binary_field_descriptor_for_type(field1.type).name, "var_config")==0){
+                struct reb_variational_configuration* vc1 = (struct reb_variational_configuration*)(buf1+pos1);
+                struct reb_variational_configuration* vc2 = (struct reb_variational_configuration*)(buf2+pos2);
+                for (unsigned int i=0;i<field1.size/sizeof(struct reb_variational_configuration);i++){
+                    fields_differ |= reb_variational_configuration_diff(vc1[i],vc2[i]);
                 }
             }else{
                 if (memcmp(buf1+pos1,buf2+pos2,field1.size)!=0){
